@@ -132,12 +132,12 @@ package avfs
 //@ func MkdirTemp
 //@   event
 //@   requires vfs != nil
-//@   ensures[C01,C12] r1 == nil ==> called(vfs.Mkdir) && !failed(vfs.Mkdir) && arg(vfs.Mkdir, 0) == r0 && recv(vfs.Mkdir) == vfs
+//@   ensures[C01,C06,C12] r1 == nil ==> called(vfs.Mkdir) && !failed(vfs.Mkdir) && arg(vfs.Mkdir, 0) == r0 && recv(vfs.Mkdir) == vfs
 
 //@ func CreateTemp
 //@   event
 //@   requires vfs != nil
-//@   ensures[C01,C12] r1 == nil ==> called(vfs.OpenFile) && !failed(vfs.OpenFile) && r0 == result(vfs.OpenFile, 0) && recv(vfs.OpenFile) == vfs && arg(vfs.OpenFile, 1) == os.O_RDWR|os.O_CREATE|os.O_EXCL
+//@   ensures[C01,C06,C12] r1 == nil ==> called(vfs.OpenFile) && !failed(vfs.OpenFile) && r0 == result(vfs.OpenFile, 0) && recv(vfs.OpenFile) == vfs && arg(vfs.OpenFile, 1) == os.O_RDWR|os.O_CREATE|os.O_EXCL
 
 //@ func Glob
 //@   event
